@@ -1613,6 +1613,10 @@ func CharCode(vm *VM, char, code Term, k Cont, env *Env) *Promise {
 		case Variable:
 			return Error(InstantiationError(env))
 		case Integer:
+			if cd < 0 || cd > utf8.MaxRune {
+				return Error(representationError(flagCharacterCode, env))
+			}
+
 			r := rune(cd)
 
 			if !utf8.ValidRune(r) {
